@@ -11,6 +11,8 @@ pub mod diff_props;
 pub use diff_props::*;
 pub mod c14;
 pub use c14::C14;
+pub mod small;
+pub use small::{C15, C19};
 
 /// smaller variants of an Engine-A case: drop chunks of the op list (ddmin style)
 pub fn simplify_case_a(c: &CaseA) -> Vec<CaseA> {
